@@ -188,7 +188,79 @@ def build(ctx):
             complete_runs += 1
     ctx.cover('cover/complete-rewrite-path-exists', [z3.BoolVal(complete_runs > 0), z3.Or(success_paths)])
     ctx.cover('cover/crash-between-the-two-renames', [orig.e != fmt.e])
+    part_flag(ctx)
     validate(ctx)
+
+
+# ----------------------------------------------------------------------------- `--backup` reaches the backup emitter
+def part_flag(ctx):
+    """GetOptsOptions::apply_to (real MIR of the binary, real Config setters): with `--backup` given and `--check` not given,
+    make_backup is true afterwards, for every combination of the other flags (emit mode, quiet, verbose, edition, ...). Together with
+    C06's create_emitter obligation (Files and make_backup => FilesWithBackupEmitter) the protocol decided above is the one that runs."""
+    from mirsym.config import make_config, config_value
+    both = ctx.engine(('rustfmt', 'lib'), loop_bound=4)
+    both.lenient = False
+    both.inline_only = [re.compile(r'src/bin/main\.rs'), re.compile(r'src/config/config_type\.rs'), re.compile(r'GetOptsOptions::'), re.compile(r'^Config'),
+                        re.compile(r'ConfigSetter'), re.compile(r'src/config/file_lines\.rs'), re.compile(r'FileLines::')]
+    both.no_inline = [re.compile(r'set_heuristics|set_width_heuristics|set_ignore|set_license|set_hide_parse_errors|set_fn_args_layout|set_merge_imports|set_version')]
+    apply_to = both.find('apply_to', self_ty='GetOptsOptions', file='src/bin/main.rs')
+    gfields = both.src.struct_fields('GetOptsOptions', 'src/bin/main.rs')
+    st = State()
+    cfgref, cv = make_config(both, st)
+    vals = []
+    check = z3.Bool('opt.check')
+    for n, ty in gfields:
+        if n == 'backup':
+            vals.append(z3.BoolVal(True))
+        elif n == 'check':
+            vals.append(check)
+        elif n == 'inline_config':
+            vals.append(Tup([Seq([])], 'HashMap'))
+        elif n == 'file_lines':
+            vals.append(Tup([Enum('Option', 0, {})], 'FileLines'))
+        else:
+            vals.append(both.fresh_of_type(st, ty, 'opt.' + n))
+    try:
+        outs = ctx.check_outcomes(both.run(apply_to, [Tup(vals, 'GetOptsOptions'), cfgref], st), 'apply_to')
+    except Unsupported as e:
+        raise Inconclusive('apply_to not encodable: %s' % e)
+    log('[C20] apply_to with --backup: %d paths' % len(outs))
+    viol = []
+    nret = 0
+    for o in outs:
+        if o.kind != 'ret':
+            continue
+        nret += 1
+        mb = config_value(both, o.state, cfgref, 'make_backup')
+        if not z3.is_bool(mb):
+            raise Inconclusive('make_backup after apply_to is %r' % (mb,))
+        viol.append(z3.And(z3.And(o.state.pc) if o.state.pc else z3.BoolVal(True), z3.Not(check), z3.Not(mb)))
+    if not nret:
+        raise Inconclusive('apply_to has no returning path')
+    ctx.prop('flag/--backup-without---check-sets-make_backup', [], z3.Or(viol), [check], replay_flag, twin=False)
+    both.inline_only = None
+    both.no_inline = []
+
+
+def replay_flag(model, r):
+    findings = []
+    for extra in ([], ['--emit', 'files'], ['--emit=files'], ['-q'], ['-v'], ['--edition', '2021'], ['-l']):
+        for order in (0, 1):
+            bins = ensure_bins()
+            _seq[0] += 1
+            d = os.path.join(BUILD, 'scratch', 'c20f-%d-%d' % (os.getpid(), _seq[0]))
+            os.makedirs(d, exist_ok=True)
+            p = os.path.join(d, 'x.rs')
+            src = 'fn   main( ) { let x=1 ; }\n'
+            open(p, 'w').write(src)
+            args = (['--backup'] + extra) if order == 0 else (extra + ['--backup'])
+            pr = subprocess.run([os.path.join(bins, 'rustfmt')] + args + [p], capture_output=True, text=True, env=run_env(), timeout=60)
+            bk = os.path.join(d, 'x.bk')
+            now = open(p).read()
+            if now != src and (not os.path.exists(bk) or open(bk).read() != src):
+                findings.append('rustfmt %s x.rs rewrote x.rs but x.bk %s' % (' '.join(args), 'is missing' if not os.path.exists(bk) else 'does not hold the original'))
+            shutil.rmtree(d, ignore_errors=True)
+    return {'reproduced': bool(findings), 'detail': findings[:4]}
 
 
 # ----------------------------------------------------------------------------- native replay with the real binary
